@@ -2,7 +2,8 @@ PROP = {
     "level": "exploration",
     "technique": ("runtime monitor: graph-snapshot differential oracle + broadcast monitor around a real "
                   "AuthenticatedGossiper over a real graph.Builder/bbolt graph DB, judged by a harness-side "
-                  "BOLT-7 reference validity predicate"),
+                  "BOLT-7 reference validity predicate; zombie-index monitor judged by a harness-side "
+                  "resurrection reference (direction owner x stored key x prune window)"),
     "level_text": ("256 (quick) / 14000 (thorough) PRNG scenarios of 40 remote gossip messages each (valid channel_announcement / channel_update / "
                    "node_announcement sets from PRNG keys, every single-field corruption with and without re-signing, "
                    "single-byte corruptions of the signed region and of the signatures, replays, orderings incl. "
@@ -14,23 +15,47 @@ PROP = {
                    "allowed by the reference predicate (btcec verification over the double-SHA256 digest recomputed "
                    "from the wire bytes, funding lookup in the model chain, strict freshness, known channel) and the "
                    "stored value must match the authenticated message; every message handed to Broadcast (trickle "
-                   "forced by a sentinel) must be byte-identical to a message the reference judged valid+fresh."),
+                   "forced by a sentinel) must be byte-identical to a message the reference judged valid+fresh. "
+                   "Zombie phase (28 further steps per scenario, own PRNG stream): channels are brought into the zombie "
+                   "index of the real graph DB in every shape it can hold (both node keys / only node 1's / only node "
+                   "2's / none) through the calls lnd itself uses (ChannelGraph.MarkEdgeZombie, Builder.MarkZombieEdge, and "
+                   "ChannelGraph.DeleteChannelEdges(strict, markZombie) + PruneGraphNodes exactly as Builder.pruneZombieChans "
+                   "issues them, on graph channels with 0/1/2 policies of assorted ages); then channel_updates signed by "
+                   "node 1 / node 2 / a stranger x direction bit 0/1 x timestamp classes (fresh, just inside / just outside "
+                   "the 14-day prune window, old, 2020, zero, near and far future; some byte-flipped) and valid / badly signed "
+                   "channel_announcements are delivered for them. Oracle zombie_stays_dead_unless_authentic: after quiescence "
+                   "a tracked zombie entry may disappear only through an update whose signature verifies under the real key "
+                   "of the node owning the flagged direction, whose key is the one stored in that node's slot of the entry, "
+                   "and whose timestamp is not older than the prune window (or through a reference-valid announcement "
+                   "re-adding the channel); entries are never rewritten; an update that fails the reference is not kept in "
+                   "prematureChannelUpdates (not applied / not relayed are judged by the graph and broadcast oracles)."),
     "level_note": ("Sampled, not exhaustive. Gossip v1 only: the pinned tree rejects v2 messages on the remote path "
                    "(probed at run time, see notes.gossip_versions). 'valid => applied/relayed' is a diagnostic only "
-                   "(keep-alive suppression, zombie/closed-scid caches, rate limits are legitimate). The zombie index "
-                   "and the closed-scid cache are not part of the judged snapshot. Taproot (P2TR) funding outputs are "
+                   "(keep-alive suppression, zombie/closed-scid caches, rate limits are legitimate). Of the zombie index only "
+                   "the entries the harness itself created are judged (removal / rewrite; additions by lnd for channels "
+                   "that failed validation are not judged); the closed-scid cache is not part of the judged snapshot. "
+                   "Zombie freshness is wall-clock relative inside lnd (time.Since), so zombie-phase timestamps are "
+                   "time.Now()-relative with margins of >= 2 h around the prune window; the reference brackets lnd's clock "
+                   "reading between submit and quiescence and gives no verdict inside that bracket. Field consistency of a "
+                   "resurrecting update is not demanded (processZombieUpdate checks only the signature; the fields are "
+                   "checked when the stashed update is replayed). 'authentic fresh update => resurrected' is a diagnostic. "
+                   "Pruning is driven by the graph-DB calls of pruneZombieChans, not by the builder's ticker. Taproot (P2TR) funding outputs are "
                    "not generated. Wrong chain_hash with otherwise valid content is outside the statement (diagnostic). "
                    "channel_update wire bytes/digests come from a harness-side encoder (lnwire's ChannelUpdate1.Encode drops "
                    "unknown extra TLVs and mutates the message); what a peer would receive is observed with "
                    "lnwire.WriteMessage as peer/brontide does. Known finding on the pinned tree: an accepted channel_update "
                    "carrying an unknown TLV is relayed with bytes that differ from the signed ones (key "
-                   "ChannelUpdate:accepted-update-relayed-with-different-signed-bytes)."),
+                   "ChannelUpdate:accepted-update-relayed-with-different-signed-bytes). Finding of the zombie monitor on the "
+                   "pinned tree: strict zombie pruning records node 1's key in node 2's slot (makeZombiePubkeys), so a "
+                   "direction-1 update signed by node 1 resurrects the channel (key prune-strict:odd(-,n1):node1:d1:"
+                   "not-signed-by-direction-owner:resurrected+cached; findings/C20_strict_zombie_wrong_key_*)."),
     "design_ref": "DESIGN.md §3 C20",
-    "rule": ("One case = one scenario (own keys, own model chain, own gossiper+builder+graph DB) of 40 steps; "
+    "rule": ("One case = one scenario (own keys, own model chain, own gossiper+builder+graph DB) of 40 steps plus 28 zombie-phase steps; "
              "evaluations = remote messages judged. A step is non-trivial when it is a byte corruption, or the "
              "reference judged it valid, or lnd changed the graph / returned an error / cached it; distinct = "
              "distinct (catalogue label, reference verdict, graph changed, lnd error, cached) classes plus distinct "
-             "(message type, corrupted byte offset) pairs."),
+             "(message type, corrupted byte offset) pairs, plus distinct zombie classes (route, stored-key shape, "
+             "signer, direction bit, reference verdict, resurrected, cached)."),
     "assumptions": ["messages reach the gossiper as decoded lnwire objects (undecodable byte corruptions are skipped and counted)",
                     "no channel is closed on chain during a scenario (inert chain view)",
                     "rate limiter disabled (burst 2^30) so that freshness, not rate limiting, decides"],
@@ -42,9 +67,40 @@ PROP = {
         "watchdog": {"quick": 900, "thorough": 5400},
         "floors": {"quick": {"msgs": 4900, "oracle_graph_evals": 5000, "oracle_bcast_evals": 1000,
                              "ref_invalid": 3700, "applied_ca": 400, "applied_cu": 350, "applied_na": 270,
-                             "premature_reprocessed": 60, "future_reinjected": 12},
+                             "premature_reprocessed": 60, "future_reinjected": 12,
+                             # zombie phase (shape x signer x direction; ~half of the minimum over seeds 1-5)
+                             "oracle_zombie_evals": 6300, "z_cu": 2300, "z_made": 560, "z_may_resurrect": 245,
+                             "z_must_reject": 2050, "z_rejected_ok": 2050, "z_resurrected_ok": 210,
+                             "z_fresh_yes": 1400, "z_fresh_no": 920, "z_readded_after_resurrection": 79,
+                             "z_readded_with_stashed_update": 73, "z_made_direct_both": 80,
+                             "z_made_direct_only1": 79, "z_made_direct_only2": 80, "z_made_direct_none": 21,
+                             "z_doc_prune_both": 144, "z_doc_prune-strict_only1": 59,
+                             "z_doc_prune-strict_only2": 58, "z_both_node1_d0": 118, "z_both_node1_d1": 118,
+                             "z_both_node2_d0": 118, "z_both_node2_d1": 118, "z_both_other_d0": 147,
+                             "z_both_other_d1": 147, "z_only1_node1_d0": 89, "z_only1_node1_d1": 89,
+                             "z_only1_node2_d0": 94, "z_only1_node2_d1": 94, "z_only1_other_d0": 112,
+                             "z_only1_other_d1": 112, "z_only2_node1_d0": 52, "z_only2_node1_d1": 52,
+                             "z_only2_node2_d0": 49, "z_only2_node2_d1": 49, "z_only2_other_d0": 63,
+                             "z_only2_other_d1": 63, "z_none_node1_d0": 18, "z_none_node1_d1": 18,
+                             "z_none_node2_d0": 20, "z_none_node2_d1": 20, "z_none_other_d0": 26,
+                             "z_none_other_d1": 26},
                    "thorough": {"msgs": 270000, "oracle_graph_evals": 280000, "oracle_bcast_evals": 55000,
                                 "ref_invalid": 210000, "applied_ca": 20000, "applied_cu": 19000,
-                                "applied_na": 15000, "premature_reprocessed": 3800, "future_reinjected": 1000}},
+                                "applied_na": 15000, "premature_reprocessed": 3800, "future_reinjected": 1000,
+                                "oracle_zombie_evals": 315000, "z_cu": 115000, "z_made": 28000,
+                                "z_may_resurrect": 12250, "z_must_reject": 102500, "z_rejected_ok": 102500,
+                                "z_resurrected_ok": 10500, "z_fresh_yes": 70000, "z_fresh_no": 46000,
+                                "z_readded_after_resurrection": 3950, "z_readded_with_stashed_update": 3650,
+                                "z_made_direct_both": 4000, "z_made_direct_only1": 3950, "z_made_direct_only2": 4000,
+                                "z_made_direct_none": 1050, "z_doc_prune_both": 7200, "z_doc_prune-strict_only1": 2950,
+                                "z_doc_prune-strict_only2": 2900, "z_both_node1_d0": 5900, "z_both_node1_d1": 5900,
+                                "z_both_node2_d0": 5900, "z_both_node2_d1": 5900, "z_both_other_d0": 7350,
+                                "z_both_other_d1": 7350, "z_only1_node1_d0": 4450, "z_only1_node1_d1": 4450,
+                                "z_only1_node2_d0": 4700, "z_only1_node2_d1": 4700, "z_only1_other_d0": 5600,
+                                "z_only1_other_d1": 5600, "z_only2_node1_d0": 2600, "z_only2_node1_d1": 2600,
+                                "z_only2_node2_d0": 2450, "z_only2_node2_d1": 2450, "z_only2_other_d0": 3150,
+                                "z_only2_other_d1": 3150, "z_none_node1_d0": 900, "z_none_node1_d1": 900,
+                                "z_none_node2_d0": 1000, "z_none_node2_d1": 1000, "z_none_other_d0": 1300,
+                                "z_none_other_d1": 1300}},
     }],
 }
